@@ -616,6 +616,14 @@ class Gen:
                "route": "mul", "store": False}
         # an array built from quantities of the exported namespace, bound to the custom registry
         yield {"k": "arrlist", "node": ni, "h": 0, "names": r.sample(["km", "m", "cm", "mile", "pc"], 2), "store": self.store()}
+        # the fast constructor with an existing Unit object and registry=: an exported unit, or the unit object of
+        # an array that lives in another registry
+        if r.random() < 0.6:
+            yield {"k": "arrbypass", "node": ni, "h": 0, "name": r.choice(["km", "m", "s", "degC", "dimensionless"]),
+                   "v": r.choice(VALUES), "cls": r.choice(["array", "quantity"]), "store": self.store()}
+        if r.random() < 0.5 and w.heap:
+            yield {"k": "arrbypass", "node": self.pick_node(w), "h": 0, "x": r.randrange(len(w.heap)), "v": r.choice(VALUES),
+                   "cls": r.choice(["array", "quantity"]), "store": self.store()}
         yield {"k": "quantity", "node": 0, "h": 0, "v": 5.0, "s": "km", "route": "mul", "store": True}
         yield {"k": "to", "x": w.last_stored, "s": "m", "how": "to", "store": False}
 
